@@ -100,12 +100,43 @@ Proof.
 Qed.
 
 (* allocation: after the correction the sections receive exactly N control points *)
-Theorem alloc_sum Ncp rounded : rounded <> [] -> fold_left Z.add (alloc Ncp rounded) 0%Z = Ncp.
+Lemma zsum_shift : forall l a, fold_left Z.add l a = (a + fold_left Z.add l 0)%Z.
+Proof. induction l as [|x l IH]; intros a; cbn; [lia|]. rewrite IH, (IH x). lia. Qed.
+Lemma zmax_list_in (l : list Z) : l <> [] -> In (zmax_list l) l.
 Proof.
-  destruct rounded as [|r0 rest]; [congruence|]. intros _. unfold alloc.
-  assert (H : forall l a, fold_left Z.add l a = (a + fold_left Z.add l 0)%Z).
-  { induction l as [|x l IH]; intros a; cbn; [lia|]. rewrite IH, (IH x). lia. }
-  cbn [fold_left]. rewrite (H rest (0 + r0)%Z). rewrite H. lia.
+  unfold zmax_list. destruct l as [|x0 l]; [congruence|]. intros _. cbn [hd].
+  assert (H : forall l' d, In (fold_right Z.max d l') (d :: l')).
+  { induction l' as [|y l' IH]; intro d; cbn [fold_right]; [left; reflexivity|].
+    destruct (Z.max_spec y (fold_right Z.max d l')) as [[_ E]|[_ E]]; rewrite E.
+    - destruct (IH d) as [H|H]; [left; exact H | right; right; exact H].
+    - right; left; reflexivity. }
+  destruct (H (x0 :: l) x0) as [E|E]; [rewrite <- E; left; reflexivity | exact E].
+Qed.
+Lemma dec_first_sum m l : In m l -> fold_left Z.add (dec_first m l) 0%Z = (fold_left Z.add l 0 - 1)%Z.
+Proof.
+  induction l as [|x l IH]; intro H; [destruct H|]. cbn [dec_first].
+  destruct (x =? m)%Z eqn:E.
+  - cbn [fold_left]. rewrite (zsum_shift l (0 + (x - 1))%Z), (zsum_shift l (0 + x)%Z). lia.
+  - apply Z.eqb_neq in E. destruct H as [H|H]; [congruence|].
+    cbn [fold_left]. rewrite (zsum_shift (dec_first m l)), (zsum_shift l (0 + x)%Z), (IH H). lia.
+Qed.
+Lemma dec_first_nonempty m l : l <> [] -> dec_first m l <> [].
+Proof. destruct l; [congruence|]. intros _. cbn. destruct (z =? m)%Z; discriminate. Qed.
+Lemma take_from_largest_sum k : forall l, l <> [] -> fold_left Z.add (take_from_largest k l) 0%Z = (fold_left Z.add l 0 - Z.of_nat k)%Z.
+Proof.
+  induction k as [|k IH]; intros l Hl; cbn [take_from_largest]; [lia|].
+  rewrite IH by (apply dec_first_nonempty; exact Hl).
+  rewrite dec_first_sum by (apply zmax_list_in; exact Hl). lia.
+Qed.
+Theorem alloc_sum Ncp rounded : rounded <> [] -> Forall (fun r => 0 <= r)%Z rounded -> fold_left Z.add (alloc Ncp rounded) 0%Z = Ncp.
+Proof.
+  destruct rounded as [|r0 rest]; [congruence|]. intros _ Hnn. unfold alloc.
+  assert (Hr : (0 <= r0)%Z) by (inversion Hnn; assumption).
+  set (diff := (fold_left Z.add (r0 :: rest) 0 - Ncp)%Z).
+  destruct (0 <=? r0 - diff)%Z eqn:E.
+  - unfold diff. cbn [fold_left]. rewrite (zsum_shift rest (0 + r0)%Z), zsum_shift. lia.
+  - apply Z.leb_gt in E. rewrite take_from_largest_sum by discriminate.
+    rewrite Z2Nat.id by lia. unfold diff. lia.
 Qed.
 
 (* areas: sum of section areas = semispan x trapezoid rule of the node chords over the node span fractions *)
